@@ -78,7 +78,7 @@ def Shuffle(F,
         if len(polarity_flips) != N:
             raise ValueError(perr)
         for i in range(N):
-            if abs(polarity_flips[i]) != 1:
+            if polarity_flips[i] not in (-1, 1):
                 raise ValueError(perr)
 
     # variables permutation
